@@ -46,11 +46,11 @@ theorem solo_tags (k : Nat) : ∀ (fs : FS) (t : Th), t.role = .cleaner → t.pc
     exact ih { fs with tags := k + 1 } { t with pc := 27, todo := k + 1 } hr rfl rfl rfl
 
 /-- the two listings and the tag loop: from pc 25 to pc 28 in `2 + tags` steps -/
-theorem solo_phase2 (fs : FS) (t : Th) (hr : t.role = .cleaner) (hpc : t.pc = 25) :
+theorem solo_phase2 (fs : FS) (t : Th) (hr : t.role = .cleaner) (hpc : t.pc = 25) (hsf : t.svcFails = false) :
     runSolo (2 + fs.tags) fs t = ({ fs with tags := 0 }, { t with pc := 28, todo := 0 }) := by
   rw [runSolo_add]
   have h2 : runSolo 2 fs t = (fs, cleanerNorm { t with pc := 27, todo := fs.tags }) := by
-    simp [runSolo, stepL, hr, cleanerStep, hpc]
+    simp [runSolo, stepL, hr, cleanerStep, hpc, hsf]
   rw [h2]
   simp only []
   cases hk : fs.tags with
@@ -65,21 +65,21 @@ theorem solo_phase2 (fs : FS) (t : Th) (hr : t.role = .cleaner) (hpc : t.pc = 25
 
 /-- remove_node and the removal of the token: from pc 28 to the end in 12 steps (11 if there are no details) -/
 theorem solo_phase3_12 (fs : FS) (t : Th) (hr : t.role = .cleaner) (hpc : t.pc = 28) (ht : fs.tags = 0) (hti : fs.tagsInit = 0)
-    (hdet : fs.det.linked = true → fs.det.perm = .final) (hl : fs.ol.lock = some t.pid) :
+    (hdet : fs.det.linked = true → fs.det.perm = .final) (hl : fs.ol.lock = some t.pid) (hsf : t.svcFails = false) :
     Clean (runSolo 12 fs t).1 ∧ (runSolo 12 fs t).2.res = some .ok ∧ (runSolo 12 fs t).2.pc = pcDone ∧
     (runSolo 12 fs t).2.role = .cleaner := by
   by_cases hd : fs.det.linked = true
   · have hperm := hdet hd
     by_cases hdir : fs.dir = true <;>
-      simp [runSolo, stepL, hr, cleanerStep, hpc, cleanerNorm, hd, hperm, ht, hti, hl, File.closeBy_linked, pcDone, hdir, Clean]
+      simp [runSolo, stepL, hr, cleanerStep, hpc, cleanerNorm, hd, hperm, ht, hti, hl, File.closeBy_linked, pcDone, hdir, Clean, hsf]
   · have hd' : fs.det.linked = false := by simpa using hd
     by_cases hdir : fs.dir = true <;>
-      simp [runSolo, stepL, hr, cleanerStep, hpc, cleanerNorm, hd', ht, hti, hl, File.closeBy_linked, pcDone, hdir, Clean]
+      simp [runSolo, stepL, hr, cleanerStep, hpc, cleanerNorm, hd', ht, hti, hl, File.closeBy_linked, pcDone, hdir, Clean, hsf]
 
 theorem solo_phase3 (fs : FS) (t : Th) (hr : t.role = .cleaner) (hpc : t.pc = 28) (ht : fs.tags = 0) (hti : fs.tagsInit = 0)
-    (hdet : fs.det.linked = true → fs.det.perm = .final) (hl : fs.ol.lock = some t.pid) (n : Nat) :
+    (hdet : fs.det.linked = true → fs.det.perm = .final) (hl : fs.ol.lock = some t.pid) (hsf : t.svcFails = false) (n : Nat) :
     Clean (runSolo (12 + n) fs t).1 ∧ (runSolo (12 + n) fs t).2.res = some .ok ∧ (runSolo (12 + n) fs t).2.pc = pcDone := by
-  obtain ⟨h1, h2, h3, h4⟩ := solo_phase3_12 fs t hr hpc ht hti hdet hl
+  obtain ⟨h1, h2, h3, h4⟩ := solo_phase3_12 fs t hr hpc ht hti hdet hl hsf
   rw [runSolo_add]
   have hstuck : stepL (runSolo 12 fs t).1 (runSolo 12 fs t).2 = none := by
     simp [stepL, h4, cleanerStep, h3, pcDone]
